@@ -271,8 +271,8 @@ def _judge_reconfigured(self, how, mine, idx):
                             'stale:' + bf}), idx))
             return True
         sim.count('attempt.recovered')
-        sim.proj.conf_args[:] = rc['old']
-        self.reconf = None
+        # (still either/or for later attempts: the saved configuration may
+        # already be the new one, and the next real regeneration follows it)
         return True
     # neither.  If every file is what one of the two configurations writes,
     # but not all of the same one, the attempt succeeded over a mixture
@@ -373,6 +373,8 @@ SCRIPT_FAULTS = {
     'exit-3': lambda t: t + "import sys\nsys.exit(3)\n",
     # an exit status is taken modulo 256 by the operating system
     'exit-256': lambda t: t + "exit(256)\n",
+    # bfg9000's own "stop here, nothing to do" exception, raised by a script
+    'raise-abort': lambda t: t + "raise AbortConfigure('from the script')\n",
     'dup-output': lambda t: t + ("executable('prog', files=['main.c'])\n"),
 }
 
